@@ -24,6 +24,7 @@ CFG = {
         "Leptos.Html.run_textareaBody",
         # leptos components that hand `escape` through: <Show>, <ErrorBoundary> (+ fallback, messages), <For>, <Suspense>/<Transition>, <Await>
         "Leptos.Html.C06_wrappers_transparent",
+        "Leptos.Html.C06_prim_unescaped_witness",
         "Leptos.Html.C06_island_props",
         "Leptos.Html.C06_doc_attrs",
         "Leptos.Html.C06_doc",
@@ -106,7 +107,10 @@ CFG = {
                  "Stylesheet tags, <Html/>/<Body/> attribute strings and the string searches that place them",
                  "tachys Island / IslandChildren (hand-written tags and attributes, position passed through)",
                  "leptos <Show>, <ErrorBoundary>, <For>, <Suspense>, <Transition>, <Await> as transparent for escaping (resolve: first paint / settled document); "
-                 "their sibling markers and chunking are C05/C07's models, compared away by normList here",
+                 "their sibling markers and chunking are C05/C07's models, compared away by normList here — except the one marker rule that decides "
+                 "whether two data strings touch: a <Suspense>/<Await> that is pending in the in-order stream leaves position = NextChild behind it "
+                 "(VNode.resetPos, resolveInOrder), so its last child and the next sibling are adjacent in the document; with a raw `char` child "
+                 "(primEscaped := false) that is F-C06-7, which the model prints as is",
                  "html_escape::encode_text / encode_double_quoted_attribute"],
     "assumptions": [
         "view shapes: element nesting that the HTML tree builder accepts without implied end tags (no p-closing element inside p, no a in a, "
@@ -128,6 +132,12 @@ CFG = {
         "<noscript>: its children are markup for script-less clients (elements must stay unescaped), only its string leaves would need escaping, which "
         "the single `escape` flag (it also switches the child markers) cannot express without an API change — left known. "
         "Several string children of one <textarea> are still joined by a literal `<!>` (a property of the view shape, F-C18-2; class rcdata-marker)",
+        "primitive children (char, numbers, bool, ..) are printed raw by the real code (F-C06-7, class prim-unescaped): the structure theorem covers a "
+        "`char` child only when it is inert (not one of & < >; vwfNode .prim) while primEscaped = false, and every `char` once hooks/fix-c06-5.patch "
+        "is applied and the flag is flipped (the proofs build for both values); in the to_html / out-of-order paths the `<!>` marker keeps a raw "
+        "`<` apart from the following text, which then parses as text (incorrectly-opened-comment / invalid-first-character are handled by the parser), "
+        "in the in-order stream after a pending <Suspense> nothing does — the oracle failure is reported under the known class only when the model "
+        "reproduces the same parsed document",
     ],
     "manifest": {
         "category": "proof",
